@@ -3,7 +3,7 @@ import core, os
 LEVEL = 'exploration'
 RULE = ('every function symbol of the test binary (independent pclntab parse, ~13k incl. net/http) is looked up by name and the result compared with runtime.FuncForPC (entry and name); '
         '200 generated package variables in all four data sections are looked up and compared with their real addresses; thousands of near-miss names (one rune deleted/altered/case-flipped/suffixed) must yield an error; '
-        'the same sources are rebuilt and re-run under link modes default, -ldflags=-s, -ldflags=-w and -buildmode=pie; distinct = (link mode, symbol kind, exact/error outcome) classes')
+        'the same sources are rebuilt and re-run under link modes default, -ldflags=-s, -ldflags=-w, -buildmode=pie and (cgo) external linking; every answer is also cross-checked against the ELF symbol of exactly that name, and symbols that exist only in the ELF table must yield an error or their exact address; distinct = (link mode, symbol kind, exact/error outcome) classes')
 
 
 def run(ctx):
@@ -14,9 +14,12 @@ def run(ctx):
     modes = [('default', None, None), ('strip-s', '-s', None)]
     if ctx.thorough or True:
         modes += [('strip-w', '-w', None), ('pie', None, 'pie')]
+    import shutil
+    if shutil.which('gcc'):
+        modes.append(('external', '-linkmode=external', None))
     names = os.path.join(ctx.scratch, 'names.txt')
     for mode, ld, bm in modes:
-        b = ctx.build('c10-' + mode, core.MODPATH + '/zzverif/c10', files, ldflags=ld, buildmode=bm)
+        b = ctx.build('c10-' + mode, core.MODPATH + '/zzverif/c10', files, ldflags=ld, buildmode=bm, tags='verifcgo' if mode == 'external' else None)
         ch = ctx.child(b, run='TestC10$', timeout=600, env={'VERIF_C10_MODE': mode, 'VERIF_C10_NAMES': names}, label=mode)
         ctx.absorb(ch, what='TestC10[' + mode + ']')
     bd = os.path.join(core.BUILD, 'bin', 'c10-default.test')
